@@ -65,6 +65,7 @@ func (m *Mutex) Lock() {
 	s.point(&Op{Kind: "Mutex.Lock", Obj: &m.obj, Ready: func() bool { return m.holder == nil }, holderFn: m.holderName})
 	m.holder = s.cur
 	s.event(evLock, &m.obj, true)
+	s.hbAcquire(&m.obj)
 }
 
 func (m *Mutex) TryLock() bool {
@@ -105,6 +106,7 @@ func (m *Mutex) Unlock() {
 	}
 	m.holder = nil
 	s.event(evUnlock, &m.obj, true)
+	s.hbRelease(&m.obj)
 }
 
 // Locker mirrors sync.Locker.
@@ -166,6 +168,7 @@ func (m *RWMutex) Lock() {
 		s.event(evWLock2, &m.obj, true)
 	}
 	m.wActive = true
+	s.hbAcquire(&m.obj)
 }
 
 func (m *RWMutex) TryLock() bool {
@@ -214,6 +217,7 @@ func (m *RWMutex) Unlock() {
 	}
 	m.pending = nil
 	s.event(evWUnlock, &m.obj, true)
+	s.hbRelease(&m.obj)
 }
 
 func (m *RWMutex) RLock() {
@@ -230,6 +234,7 @@ func (m *RWMutex) RLock() {
 	if m.wHolder == nil {
 		m.active++
 		s.event(evRLock, &m.obj, false)
+		s.hbAcquire(&m.obj)
 		return
 	}
 	p := &rwPending{}
@@ -237,6 +242,7 @@ func (m *RWMutex) RLock() {
 	s.event(evRLock+1<<16, &m.obj, false)
 	s.point(&Op{Kind: "RWMutex.RLock(queued)", Obj: &m.obj, Ready: func() bool { return p.released }, holderFn: m.holderName})
 	s.event(evRLock+2<<16, &m.obj, false)
+	s.hbAcquire(&m.obj)
 }
 
 func (m *RWMutex) TryRLock() bool {
@@ -276,6 +282,7 @@ func (m *RWMutex) RUnlock() {
 		panic("sync: RUnlock of unlocked RWMutex")
 	}
 	m.active--
+	s.hbRelease(&m.obj)
 	if m.wHolder != nil && !m.wActive && m.readerWait > 0 {
 		m.readerWait--
 		// this changes what the announced writer waits for: order it with the writer
@@ -320,6 +327,9 @@ func (w *WaitGroup) Add(d int) {
 	s.point(&Op{Kind: "WaitGroup.Add", Obj: &w.obj})
 	w.n += d
 	s.event(evWgAdd+uint64(int64(d))<<16, &w.obj, true)
+	if d < 0 {
+		s.hbRelease(&w.obj)
+	}
 	if w.n < 0 {
 		panic("sync: negative WaitGroup counter")
 	}
@@ -339,6 +349,7 @@ func (w *WaitGroup) Wait() {
 	w.ens(s)
 	s.point(&Op{Kind: "WaitGroup.Wait", Obj: &w.obj, Ready: func() bool { return w.n == 0 }})
 	s.event(evWgWait, &w.obj, false)
+	s.hbAcquire(&w.obj)
 }
 
 // ---------------------------------------------------------------- Once
@@ -515,6 +526,7 @@ func (e *Event) Set() {
 	s.point(&Op{Kind: "Event.Set", Obj: &e.obj})
 	e.set = true
 	s.event(evEventSet, &e.obj, true)
+	s.hbRelease(&e.obj)
 }
 
 func (e *Event) Wait() {
@@ -525,6 +537,7 @@ func (e *Event) Wait() {
 	e.ens(s)
 	s.point(&Op{Kind: "Event.Wait", Obj: &e.obj, Ready: func() bool { return e.set }})
 	s.event(evEventWait, &e.obj, false)
+	s.hbAcquire(&e.obj)
 }
 
 func (e *Event) IsSet() bool {
@@ -572,6 +585,7 @@ func (c *Counter) Add(d int) int {
 	s.point(&Op{Kind: "Counter.Add", Obj: &c.obj})
 	c.v += d
 	s.event(evCellW+uint64(int64(d))<<16, &c.obj, true)
+	s.hbRelease(&c.obj)
 	return c.v
 }
 
@@ -595,6 +609,26 @@ func (c *Counter) WaitFor(n int) {
 	c.ens(s)
 	s.point(&Op{Kind: "Counter.WaitFor", Obj: &c.obj, Ready: func() bool { return c.v >= n }})
 	s.event(evCellR+uint64(int64(n))<<24, &c.obj, false)
+	s.hbAcquire(&c.obj)
 }
 
 func (c *Counter) Peek() int { return c.v }
+
+// ---------------------------------------------------------------- statement mode (C14)
+
+// Stmt is the statement-level scheduling point inserted into package state.
+func Stmt(site string) {
+	s := S
+	if s == nil || !s.stmtOn || s.aborting || s.cur == nil {
+		return
+	}
+	s.point(&Op{Kind: "stmt", Site: site})
+	s.event(0x500^HashString(site), nil, true)
+}
+
+// StmtMode switches statement-granularity interleaving (and the race monitor) on or off for the calling run.
+func StmtMode(on bool) {
+	if s := S; s != nil {
+		s.stmtOn = on
+	}
+}
